@@ -13,7 +13,8 @@ from pathlib import Path
 VERIF = Path(__file__).resolve().parent.parent
 REPO = Path(os.environ.get("VERIF_REPO", "/repo"))
 LEAN = VERIF / "lean"
-EVID = VERIF / "evidence"
+# evidence is about /repo itself: a run against a scratch tree (VERIF_REPO=..., mutation self-tests) must not overwrite it
+EVID = VERIF / "evidence" if str(REPO) == "/repo" else VERIF / "evidence" / "scratch"
 REPLAY = EVID / "replay"
 ALLOWED_AXIOMS = {"propext", "Classical.choice", "Quot.sound"}
 FORBIDDEN = re.compile(r"sorry|admit|^axiom |native_decide|bv_decide|implemented_by|unsafe |maxHeartbeats 0|ofReduceBool",
@@ -372,7 +373,7 @@ def finish(ctx: Ctx, level="proof"):
     ev = {"property_id": ctx.prop, "tier": ctx.tier, "seed": ctx.seed, "level": level, "coverage": cov,
           "assumptions": ctx.assumptions, "wall_s": round(time.time() - ctx.t0, 2), "violations": len(new) + (1 if ctx.broken and not new else 0),
           "repo_tree": tree, "notes": ctx.notes}
-    EVID.mkdir(exist_ok=True)
+    EVID.mkdir(parents=True, exist_ok=True)
     (EVID / f"{ctx.prop}.json").write_text(json.dumps(ev, indent=1, default=str))
     for l in lines:
         print(l, flush=True)
